@@ -1,8 +1,25 @@
 package main
 
-import "fmt"
+import (
+	"fmt"
+	"os"
+	"os/exec"
+)
 
+// cmdSelftest re-checks every seeded change of /verif/seeded on a scratch copy of the
+// repository (see seedmatrix.sh) and prints the resulting table.
 func cmdSelftest(args []string) int {
-	fmt.Println("selftest: not built yet")
-	return 2
+	tier := "quick"
+	if len(args) > 0 {
+		tier = args[0]
+	}
+	c := exec.Command("/bin/bash", verifDir+"/seedmatrix.sh", tier)
+	c.Stdout, c.Stderr = os.Stdout, os.Stderr
+	if err := c.Run(); err != nil {
+		fmt.Fprintln(os.Stderr, "selftest:", err)
+		return 2
+	}
+	b, _ := os.ReadFile(verifDir + "/seeded/RESULTS.txt")
+	os.Stdout.Write(b)
+	return 0
 }
